@@ -93,6 +93,15 @@ def fixed_scenarios():
                 slots += [{"mode": "healthy", "events": [("I", 0)] * n} for _ in range(4)]
                 out.append({"cls": cls, "timeout": timeout, "workers": 2, "slots": slots,
                             "master_lat": [0] * 40, "chld_delay": 0, "boot": 0, "loops": timeout + 12, "rand": 0.0})
+    # a hung worker while the master is kept busy by signals arriving several times a second
+    for cls in ("sync", "gthread"):
+        for timeout in (2, 3):
+            for chatter in (60, 128, 200):
+                n = (timeout + 30) * (TICK + 40) // max(1, nominal_wait(cls, timeout)) + 4
+                slots = [{"mode": "hung", "events": [("I", 0)] * 2, "obeys": True, "exit_delay": 5}]
+                slots += [{"mode": "healthy", "events": [("I", 0)] * n} for _ in range(4)]
+                out.append({"cls": cls, "timeout": timeout, "workers": 2, "slots": slots, "chatter": chatter,
+                            "master_lat": [0] * 40, "chld_delay": 0, "boot": 0, "loops": (timeout + 12) * (TICK // chatter + 1), "rand": 0.0})
     return out
 
 
@@ -175,6 +184,10 @@ def run_scenario(sc):
             st["lat_i"] += 1
             if lat:
                 q.append(("T", lat))
+            if sc.get("chatter"):
+                # the master is woken more often than once a second (a USR1 every `chatter` ticks): its select() never times out
+                q.append(("T", sc["chatter"]))
+                q.append(("S", int(signal.SIGUSR1)))
         q.append(("M",))
         st["q"] = q
         return st["q"].pop(0)
